@@ -7,11 +7,15 @@ package main
 import (
 	"fmt"
 	"go/ast"
+	"go/build"
 	"go/format"
 	"go/importer"
 	"go/parser"
 	"go/token"
 	"go/types"
+	"os"
+	"path/filepath"
+	"runtime"
 	"sort"
 	"strconv"
 	"strings"
@@ -328,7 +332,11 @@ var (
 func typeCheck(files map[string]string) string {
 	tcMu.Lock()
 	defer tcMu.Unlock()
-	tcOnce.Do(func() { tcImp = importer.ForCompiler(tcFset, "source", nil) })
+	tcOnce.Do(func() {
+		// `go list` (module mode) runs in build.Default.Dir: the harness module, whatever the cwd
+		build.Default.Dir = harnessDir()
+		tcImp = importer.ForCompiler(tcFset, "source", nil)
+	})
 	var parsed []*ast.File
 	names := make([]string, 0, len(files))
 	for n := range files {
@@ -338,20 +346,38 @@ func typeCheck(files map[string]string) string {
 	}
 	sort.Strings(names)
 	for _, n := range names {
-		f, err := parser.ParseFile(tcFset, n, files[n], 0)
+		// file names are placed under the harness module so that the source importer resolves
+		// github.com/lib/pq and github.com/google/uuid whatever the working directory is
+		f, err := parser.ParseFile(tcFset, filepath.Join(harnessDir(), filepath.Base(n)), files[n], 0)
 		if err != nil {
-			return "parse: " + err.Error()
+			return "parse: " + strings.Replace(err.Error(), harnessDir()+"/", "", -1)
 		}
 		parsed = append(parsed, f)
 	}
 	var errs []string
 	conf := types.Config{Importer: tcImp, Error: func(err error) {
-		if len(errs) < 4 {
+		// secondary lines ("\tother declaration of X") belong to the error before them
+		if te, ok := err.(types.Error); ok && strings.HasPrefix(te.Msg, "\t") {
+			return
+		}
+		if len(errs) < 6 {
 			errs = append(errs, err.Error())
 		}
 	}}
 	conf.Check("db", tcFset, parsed, nil)
-	return strings.Join(errs, " | ")
+	return strings.Replace(strings.Join(errs, " | "), harnessDir()+"/", "", -1)
+}
+
+// harnessDir: the directory of the harness module (where go.mod requires lib/pq and uuid)
+func harnessDir() string {
+	if d := os.Getenv("VERIF_HARNESS_DIR"); d != "" {
+		return d
+	}
+	_, file, _, ok := runtime.Caller(0)
+	if ok {
+		return filepath.Dir(file)
+	}
+	return "/verif/harness"
 }
 
 func gofmtStable(src string) bool {
